@@ -6,6 +6,7 @@
 * Verdict/evidence helpers.
 """
 import copy
+import json  # noqa: F401
 import fcntl
 import hashlib
 import json
@@ -301,7 +302,7 @@ def eval_cases(tag, imports, rtype, eqb, pairs, shard=300, extra_defs=""):
     files = []
     for si in range(0, len(pairs), shard):
         chunk = pairs[si:si + shard]
-        name = f"Cases_{tag}_{si // shard}"
+        name = "Cases_" + re.sub(r"[^A-Za-z0-9_]", "_", tag) + f"_{si // shard}"
         lines = [f"From IoosQc Require Import {' '.join(imports)}.", "From Coq Require Import String.", "Open Scope Q_scope.", extra_defs]
         lines.append(f"Definition cases : list ({rtype} * {rtype}) := [")
         lines.append(";\n".join(f" ({g}, {e})" for g, e in chunk))
